@@ -35,7 +35,7 @@ PROPS = {
             J("scaled", "c09"),
         ],
         "rule": "scaled name limit (FILENAME_MAX_SIZE=48): EVERY call sequence of length <= 3 (quick; length 4 sampled 1/16 "
-                "in thorough) over a 28-call alphabet {start x5 names (fresh, second, empty, max, max+1), append x {open, "
+                "in thorough) over a 29-call alphabet {start x6 names (fresh, second, empty, max, max+1, multi-byte name of <= max characters but > max bytes), append x {open, "
                 "other, never-issued id} x {size 0, exact, short, long source}, end x3 ids, add x3 names x {exact, short}, "
                 "flush, finalize}, plus random sequences of 4..40 calls; non-trivial = at least two calls or a refused call; "
                 "distinct = distinct sequence",
